@@ -1,5 +1,5 @@
 PROPS["C20"] = {
-    "streams": ["c20a", "c20w"], "retry_divergence": 2,
+    "streams": ["c20a", "c20w"], "retry_divergence": 2, "retry_context": {"c20w": True},
     "audit": ["C20.lean", "C20Multi.lean"], "modules": ["GoDcp.Props.C20", "GoDcp.Props.C20Multi"],
     "timeout": 600,
     "design_ref": "DESIGN.md §7 C20, §6 F7",
